@@ -1,7 +1,7 @@
 //@ assume: DataFile / LeafSet / PruneList are abstract with two uninterpreted readings each, `pending()` (what reads through this instance see) and `flushed()` (what is durable on disk); assumed contracts: flush() returning Ok makes flushed == pending (AppendOnlyFile::flush: truncate, append, fsync; LeafSet/PruneList::flush: through save_via_temp_file, whose step order is proved in C09/save_via_temp) and changes neither on Err beyond what the OS guarantees (nothing assumed); replace_with_tmp() swaps in the compacted copy (proved in C08/replace_with_tmp). std::result::Result::and is specified by its documented meaning (assume_specification).
 //@ assume: T6: the trailing `.map_err(|e| { io::Error::new(.., format!(..)) })` of sync is re-addressed to `.map_err_io(..)` over the closure replaced by a unit value (the closure only re-words the error); PruneList::new(Some(self.data_dir.join(PMMR_PRUN_FILE)), bitmap) => PruneList::new_at(&self.data_dir, bitmap); log macros removed (T3). In check_compact the four closures that compute WHICH positions to drop (map_vec! bodies and the leaf filter) are replaced by opaque values and the macro / iterator expressions around them by abstract helpers (`map_vec!(pos_to_rm, ..)` => shifted_hash_positions(..) etc.): what is removed is NOT decided here, only the order of the durable steps; `assert!(self.prunable, ..)` => check_prunable.
 //@ assume: decided here (C09, durable write order at the MMR back end): PMMRBackend::sync returns Ok ONLY IF the hash file, the data file, the leaf set (prunable back ends) and the prune list were ALL flushed successfully -- txhashset::extending treats an Ok sync as 'the MMR files are on disk' before the enclosing LMDB batch commits; check_compact writes BOTH compacted temp copies (hash file, data file) BEFORE it replaces either live file -- all the failure-prone bulk writing is over before the first swap --, then replaces the hash file, then the data file, THEN rebuilds the prune list from the old roots plus the removed leaves and flushes it, THEN flushes the leaf set, in this order, and returns Ok(true) only if every step succeeded. Whether that order is itself crash-safe (a kill between the file swap and the prune-list flush) is NOT decided.
-//@ assumed_items: 21
+//@ assumed_items: 23
 //@ fns: PMMRBackend::sync, PMMRBackend::sync_leaf_set, PMMRBackend::check_compact
 pub mod io {
     pub struct Error { pub k: u8 }
@@ -54,6 +54,9 @@ impl LeafSet {
     pub uninterp spec fn flushed(&self) -> Set<int>;
     #[verifier::external_body]
     pub fn flush(&mut self) -> (r: io::Result<()>) ensures r.is_ok() ==> final(self).flushed() == old(self).pending() && final(self).pending() == old(self).pending() { unimplemented!() }
+    /// offered (not used by the pinned text)
+    #[verifier::external_body]
+    pub fn len(&self) -> (r: usize) { unimplemented!() }
 }
 impl PruneList {
     pub uninterp spec fn pending(&self) -> Set<int>;
@@ -65,10 +68,16 @@ impl PruneList {
     #[verifier::external_body]
     pub fn new_at(dir: &PathBuf, bitmap: Bitmap) -> (r: PruneList) ensures r.pending() == sp_bits(bitmap) { unimplemented!() }
 }
-pub struct PMMRBackend { pub data_dir: PathBuf, pub prunable: bool, pub hash_file: DataFile, pub data_file: DataFile, pub leaf_set: LeafSet, pub prune_list: PruneList,
-    /// ghost step counter of a compaction: 0 start, 1 hash temp copy written, 2 data temp copy written, 3 hash file replaced, 4 data file replaced, 5 prune list flushed, 6 leaf set flushed
-    pub step: Ghost<int> }
+//@ extract store/src/pmmr.rs :: struct PMMRBackend
+//@   rewrite `pub struct PMMRBackend<T: PMMRable> {` => `pub struct PMMRBackend {\n\t/// ghost step counter of a compaction: 0 start, 1 hash temp copy written, 2 data temp copy written, 3 hash file replaced, 4 data file replaced, 5 prune list flushed, 6 leaf set flushed\n\tpub step: Ghost<int>,`
+//@   rewrite `DataFile<Hash>` => `DataFile`
+//@   rewrite `DataFile<T::E>` => `DataFile`
+//@   pub_fields
+//@ end
 impl PMMRBackend {
+    /// offered (not used by the pinned text of sync)
+    #[verifier::external_body]
+    pub fn unpruned_size(&self) -> (r: u64) { unimplemented!() }
     #[verifier::external_body]
     fn clean_rewind_files(&self) -> (r: io::Result<u32>) { unimplemented!() }
     /// the (leaves removed, positions to remove) selection: iterator code outside the subset, NOT decided here
